@@ -128,7 +128,12 @@ class LinearModel(darsia.Model):
             parameters (np.ndarray): 2-array containing scaling and offset values.
 
         """
-        if dofs is None or dofs == ["all"] or set(dofs) == set(["scaling", "offset"]):
+        if (
+            dofs is None
+            or dofs == "all"
+            or dofs == ["all"]
+            or set(dofs) == set(["scaling", "offset"])
+        ):
             self.update(scaling=parameters[0], offset=parameters[1])
         elif set(dofs) == set(["scaling"]):
             self.update(scaling=parameters[0])
@@ -148,6 +153,11 @@ class LinearModel(darsia.Model):
             np.ndarray: converted signal
 
         """
+        if isinstance(img, darsia.Image):
+            # Images support scaling but not the addition of scalars; operate on the data
+            result = img.copy()
+            result.img = self._scaling * img.img + self._offset
+            return result
         return self._scaling * img + self._offset
 
 
@@ -246,7 +256,7 @@ class HeterogeneousLinearModel(darsia.Model):
         if dofs is None or dofs == "all" or set(dofs) == set(["scaling", "offset"]):
             self.update(
                 scaling=parameters[: self.num_labels],
-                offset=parameters[self.num_labels :],
+                offset=parameters[self.num_labels : 2 * self.num_labels],
             )
         elif set(dofs) == set(["scaling"]):
             self.update(scaling=parameters[: self.num_labels])
@@ -273,7 +283,12 @@ class HeterogeneousLinearModel(darsia.Model):
             )
 
         # Initialize result
-        result = np.zeros_like(img, dtype=img.dtype)
+        # NOTE: The result follows the type promotion of the homogeneous model, e.g.,
+        # integer-typed signals result in float-typed data.
+        result = np.zeros(
+            img.shape,
+            dtype=np.result_type(img.dtype, self._scaling.dtype, self._offset.dtype),
+        )
         for l_counter, label in enumerate(self.unique_labels):
             tmp = self._scaling[l_counter] * img + self._offset[l_counter]
             mask = self.cached_labels == label
